@@ -18,14 +18,21 @@ CompT(i) == UAC(AsIntT(i.lt.num), AsIntT(i.lt.den))          \* promoted compone
 SgnD(x) == IF x.n THEN "dneg" ELSE "dpos"
 
 \* +, -, *, /  (domain: every product and sum of the cross-multiplication fits the promoted component type)
+\* Each product is evaluated in the usual-arithmetic-conversion type of ITS OWN two factors, the sum / difference in the common
+\* type of the two products (the operand fractions may have four different component types).
 JudgeFrBin(e, i) ==
     LET ln == J(e.l[1])  ld == J(e.l[2])  rn == J(e.r[1])  rd == J(e.r[2])
         n == J(e.res[1])  d == J(e.res[2])
-        t == UAC(CompT(i), UAC(AsIntT(i.rt.num), AsIntT(i.rt.den)))
+        lnT == AsIntT(i.lt.num)  ldT == AsIntT(i.lt.den)  rnT == AsIntT(i.rt.num)  rdT == AsIntT(i.rt.den)
+        P1 == UAC(lnT, rdT)  P2 == UAC(rnT, ldT)  PC == UAC(P1, P2)
         en == CASE i.op = "add" -> Add(Mul(ln, rd), Mul(rn, ld)) [] i.op = "sub" -> Sub(Mul(ln, rd), Mul(rn, ld))
                 [] i.op = "mul" -> Mul(ln, rn) [] i.op = "div" -> Mul(ln, rd)
         ed == IF i.op = "div" THEN Mul(ld, rn) ELSE Mul(ld, rd)
-        fit == InT(Mul(ln, rd), t) /\ InT(Mul(rn, ld), t) /\ InT(Mul(ld, rd), t) /\ InT(Mul(ln, rn), t) /\ InT(en, t) /\ InT(ed, t)
+        fit == CASE i.op \in {"add", "sub"} ->
+                      /\ InT(Mul(ln, rd), P1) /\ InT(Mul(rn, ld), P2) /\ InT(Mul(ln, rd), PC) /\ InT(Mul(rn, ld), PC)
+                      /\ InT(en, PC) /\ InT(ed, UAC(ldT, rdT))
+                 [] i.op = "mul" -> InT(en, UAC(lnT, rnT)) /\ InT(ed, UAC(ldT, rdT))
+                 [] i.op = "div" -> InT(en, P1) /\ InT(ed, UAC(ldT, rnT))
         cls == <<"FrBin", i.op, SgnD(ld), SgnD(rd)>>
     IN IF IsZero(ld) \/ IsZero(rd) \/ IsZero(ed) \/ ~fit THEN [d |-> "skip", nt |-> FALSE, cls |-> cls]
        ELSE [d |-> (IF e.out # "ok" THEN FrOut(e.out) ELSE IF ~IsZero(d) /\ RatEq(n, d, en, ed) THEN "ok" ELSE "wrong_value"),
@@ -44,9 +51,10 @@ FrCmpVector(c) == <<IF c < 0 THEN 1 ELSE 0, IF c <= 0 THEN 1 ELSE 0, IF c > 0 TH
                     IF c >= 0 THEN 1 ELSE 0, IF c = 0 THEN 1 ELSE 0, IF c # 0 THEN 1 ELSE 0>>
 JudgeFrCmp(e, i) ==
     LET ln == J(e.l[1])  ld == J(e.l[2])  rn == J(e.r[1])  rd == J(e.r[2])
-        t == UAC(CompT(i), UAC(AsIntT(i.rt.num), AsIntT(i.rt.den)))
+        P1 == UAC(AsIntT(i.lt.num), AsIntT(i.rt.den))  P2 == UAC(AsIntT(i.rt.num), AsIntT(i.lt.den))  PC == UAC(P1, P2)
         cls == <<"FrCmp", SgnD(ld), SgnD(rd)>>
-    IN IF IsZero(ld) \/ IsZero(rd) \/ ~InT(Mul(ln, rd), t) \/ ~InT(Mul(rn, ld), t) THEN [d |-> "skip", nt |-> FALSE, cls |-> cls]
+        fit == InT(Mul(ln, rd), P1) /\ InT(Mul(rn, ld), P2) /\ InT(Mul(ln, rd), PC) /\ InT(Mul(rn, ld), PC)
+    IN IF IsZero(ld) \/ IsZero(rd) \/ ~fit THEN [d |-> "skip", nt |-> FALSE, cls |-> cls]
        ELSE LET want == FrCmpVector(RatCmp(ln, ld, rn, rd))
             IN [d |-> (IF e.out # "ok" THEN FrOut(e.out)
                        ELSE IF e.c = want THEN "ok"
@@ -132,7 +140,6 @@ JudgeFrFromFloat(e, i) ==
                                  ELSE Lt(diffN, Shl(Mul(bigger, d), 4 - D))
                     IN [d |-> (IF ~between THEN "not_between_adjacent_integers" ELSE IF ~close THEN "too_far" ELSE "ok"),
                         nt |-> TRUE, cls |-> cls]
-================================================================
 
 \* C15 (class template argument deduction) + C17: cnl::fraction{x} for a floating-point x.  The deduced component type must be a
 \* signed integer with at least as many digits as the format's significand (so that it "holds that initializer exactly" for every
